@@ -53,7 +53,10 @@ func (g *graph) process(ctx context.Context, e *Event) (Status, error) {
 
 			wg.Add(1)
 			verifPoint(ctx, "range.started", pipeline.rootNode.nodeID)
-			g.doProcess(ctx, pipeline.rootNode, e, statusChan, &wg)
+			// Every pipeline gets its own Event (sharing the payload), so the
+			// nodes of one pipeline, which may format or copy the Event,
+			// don't race with the nodes of the other pipelines.
+			g.doProcess(ctx, pipeline.rootNode, e.clone(), statusChan, &wg)
 			return true
 		})
 		verifPoint(ctx, "range.wait", "")
